@@ -448,6 +448,7 @@ class Cache:
         self._timeout = 0  # Manually handle retries during initialization.
         self._local = threading.local()
         self._txn_id = None
+        self._txn_files = ([], [])
 
         if not op.isdir(directory):
             try:
@@ -715,7 +716,6 @@ class Cache:
     @cl.contextmanager
     def _transact(self, retry=False, filename=None):
         sql = self._sql
-        filenames = []
         _disk_remove = self._disk.remove
         tid = threading.get_ident()
         txn_id = self._txn_id
@@ -728,6 +728,7 @@ class Cache:
                     sql('BEGIN IMMEDIATE')
                     begin = True
                     self._txn_id = tid
+                    self._txn_files = ([], [])
                     break
                 except sqlite3.OperationalError:
                     if retry:
@@ -736,22 +737,38 @@ class Cache:
                         _disk_remove(filename)
                     raise Timeout from None
 
+        # Files belong to the outermost transaction: those it replaced are
+        # removed once it commits, those it created once it rolls back.
+
+        created, replaced = self._txn_files
+
+        if filename is not None:
+            created.append(filename)
+
         try:
-            yield sql, filenames.append
+            yield sql, replaced.append
         except BaseException:
             if begin:
                 assert self._txn_id == tid
                 self._txn_id = None
                 sql('ROLLBACK')
+                for name in created:
+                    _disk_remove(name)
             raise
         else:
             if begin:
                 assert self._txn_id == tid
                 self._txn_id = None
                 sql('COMMIT')
-            for name in filenames:
-                if name is not None:
-                    _disk_remove(name)
+                for name in replaced:
+                    if name is not None:
+                        _disk_remove(name)
+
+    def _remove_after_commit(self, filename):
+        if self._txn_id == threading.get_ident():
+            self._txn_files[1].append(filename)
+        else:
+            self._disk.remove(filename)
 
     def set(self, key, value, expire=None, read=False, tag=None, retry=False):
         """Set `key` and `value` item in cache.
@@ -1341,7 +1358,7 @@ class Cache:
             return default
         finally:
             if filename is not None:
-                self._disk.remove(filename)
+                self._remove_after_commit(filename)
 
         if expire_time and tag:
             return value, db_expire_time, db_tag
@@ -1610,7 +1627,7 @@ class Cache:
                 continue
             finally:
                 if name is not None:
-                    self._disk.remove(name)
+                    self._remove_after_commit(name)
             break
 
         if expire_time and tag:
